@@ -8,8 +8,11 @@ caught = total = 0
 for d in sorted(glob.glob(os.path.join(V, 'seeded', '*'))):
     m = json.load(open(d + '/meta.json'))
     n = m['name']
-    ran = {r['check']: r['verdict'] for r in m['ran']}
+    ran = {r['check']: r['verdict'] for r in m['ran'] if r['tier'] == 'quick'}
+    thor = [r for r in m['ran'] if r['tier'] != 'quick' and r['verdict'] == 'caught']
     v = ran.get(m['breaks_property'], '?')
+    if thor and v != 'caught':
+        v += ' by quick, caught by thorough'
     total += 1
     caught += v == 'caught'
     others = [k for k in ran if k != m['breaks_property'] and ran[k] == 'caught']
